@@ -70,9 +70,8 @@ class Harness:
 
     def send(self):
         self.report["trace"] = self.trace
-        data = json.dumps(self.report).encode()
+        data = json.dumps(self.report).encode() + b"\n"
         os.write(self.wfd, data)
-        os.close(self.wfd)
 
     def crash(self, fl, extra=None):
         for fp in self.open_files:
@@ -391,6 +390,9 @@ def run_sdk(case):
     idlist = ids_of(case)
     hash2key = {L.doc_name(i): k for k, i in enumerate(idlist)}
     d = L.scratch_dir("c15")
+
+    def reap(kill):
+        pass
     try:
         store = local_file.LocalFileObjectStore(d)
         table = []          # version tokens: index -> canonical form
@@ -437,12 +439,14 @@ def run_sdk(case):
         source_before = obj.source
         # ---- child
         rfd, wfd = os.pipe()
+        gor, gow = os.pipe()        # parent -> child: "the directory has been inspected, now retry"
         sys.stdout.flush()
         sys.stderr.flush()
         pid = os.fork()
         if pid == 0:
             try:
                 os.close(rfd)
+                os.close(gow)
                 H = Harness(case, d, hash2key, wfd)
                 if case.get("stale_tmp") is not None:
                     with open(os.path.join(d, L.doc_name(idlist[key]) + H.tmp_suffix), "wb") as f:
@@ -476,9 +480,31 @@ def run_sdk(case):
                 H.report["marks"] = [1 if obj.id in cstore._object_cache else 0,
                                      1 if obj.source != source_before else 0]
                 H.report["source"] = obj.source
-                H.report["same"] = answers(cstore if case["op"] == "add" else store, idlist, table)
+                # (asked through the child's own instance, which holds no replica of a committed object: a lookup
+                # through the instance that does would refresh it, i.e. undo the change that is to be retried)
+                H.report["same"] = answers(cstore, idlist, table)
                 H.report["table_len"] = len(table)
                 H.send()
+                # ---- second phase: once the parent has inspected the directory, the SAME operation with the same
+                # content is retried on the same instance (no fault this time) and the instance is asked again
+                import select as _select
+                if _select.select([gor], [], [], 40 * CALL_LIMIT)[0] and os.read(gor, 1) == b"g":
+                    r2 = {}
+                    try:
+                        with L.deadline(3 * CALL_LIMIT):
+                            if case["op"] == "add":
+                                cstore.add(obj)
+                            else:
+                                obj.commit()
+                        r2["outcome"] = [0]
+                    except L.Hang:
+                        r2["outcome"] = [7]
+                    except BaseException as e:   # noqa
+                        r2["outcome"] = [1, L.exc_code(e)]
+                        r2["exc"] = "{}: {}".format(type(e).__name__, e)[:200]
+                    r2["source"] = obj.source
+                    r2["same"] = answers(cstore, idlist, table)
+                    os.write(wfd, json.dumps(r2).encode() + b"\n")
             except BaseException as e:   # noqa  (harness failure inside the child)
                 try:
                     os.write(wfd, json.dumps({"child_error": repr(e)}).encode())
@@ -486,27 +512,42 @@ def run_sdk(case):
                     pass
             os._exit(0)
         os.close(wfd)
-        chunks = []
+        os.close(gor)
         import select
         import signal
         import time
-        t_end = time.time() + 20 * CALL_LIMIT
-        killed = False
-        while True:
-            left = t_end - time.time()
-            if left <= 0 or not select.select([rfd], [], [], left)[0]:
-                os.kill(pid, signal.SIGKILL)      # the child did not finish: never leave it behind
-                killed = True
-                break
-            b = os.read(rfd, 65536)
-            if not b:
-                break
-            chunks.append(b)
-        os.close(rfd)
-        _, status = os.waitpid(pid, 0)
-        if killed:
-            chunks = [json.dumps({"pid": pid, "outcome": [7], "trace": [], "killed": True}).encode()]
-        rep = json.loads(b"".join(chunks).decode() or "{}")
+        buf = [b""]
+
+        def read_line(limit):
+            """one report line of the child, None if it does not come within the limit / the child is gone"""
+            t_end = time.time() + limit
+            while b"\n" not in buf[0]:
+                left = t_end - time.time()
+                if left <= 0 or not select.select([rfd], [], [], left)[0]:
+                    return None
+                b = os.read(rfd, 65536)
+                if not b:
+                    return None
+                buf[0] += b
+            line, buf[0] = buf[0].split(b"\n", 1)
+            return json.loads(line.decode())
+
+        reaped = []
+
+        def reap(kill):
+            if reaped:
+                return
+            reaped.append(1)
+            if kill:
+                try:
+                    os.kill(pid, signal.SIGKILL)      # never leave the child behind
+                except ProcessLookupError:
+                    pass
+            os.waitpid(pid, 0)
+        rep = read_line(20 * CALL_LIMIT)
+        status = None
+        if rep is None:
+            rep = {"pid": pid, "outcome": [7], "trace": [], "killed": True}
         if "child_error" in rep or "outcome" not in rep:
             raise RuntimeError("child failed: {} status={}".format(rep, status))
         tmp_suffix = ".{}-{}.tmp".format(rep["pid"], __import__("threading").get_ident())
@@ -652,6 +693,94 @@ def run_sdk(case):
                 flag("commit-returned-not-stored", "commit returned but the document is not the new version")
         if unknown and not all(u.endswith(".tmp") for u in unknown):
             flag("unexpected-file", "unknown files {}".format(unknown))
+        # ---- retry: the same operation with the same content, without fault - on the same instance in the same
+        # process if it is still there, else (it died) in this process on a new instance; then everything again
+        retry = None
+        first_hung = hung or rep.get("killed") or (not crashed and rep["same"]["hang"])
+        if not first_hung:
+            if crashed:
+                reap(False)
+                retry = {}
+                rstore = local_file.LocalFileObjectStore(d)
+                try:
+                    with L.deadline(3 * CALL_LIMIT):
+                        if case["op"] == "add":
+                            rstore.add(obj)
+                        else:
+                            obj.commit()
+                    retry["outcome"] = [0]
+                except L.Hang:
+                    retry["outcome"] = [7]
+                except BaseException as e:   # noqa
+                    retry["outcome"] = [1, L.exc_code(e)]
+                    retry["exc"] = "{}: {}".format(type(e).__name__, e)[:200]
+                retry["source"] = obj.source
+                retry["same"] = answers(rstore, idlist, table)
+            else:
+                try:
+                    os.write(gow, b"g")
+                    retry = read_line(20 * CALL_LIMIT)
+                except OSError:
+                    retry = None
+                reap(retry is None)
+                if retry is None:
+                    retry = {"outcome": [7], "source": "", "same": {"per": [], "len": [-7], "iter": [-7], "hang": ["retry"]}}
+        else:
+            reap(True)
+        for fd in (rfd, gow):
+            try:
+                os.close(fd)
+            except OSError:
+                pass
+        retry_rows = []
+        if retry is not None:
+            after_r = snapshot(d)
+            fresh_r = answers(local_file.LocalFileObjectStore(d), idlist, table)
+            names_r = [nm for nm in names if nm[0] != 2]     # the retrying process may have another temp-file name
+            real_r = {}
+            for n, raw in after_r.items():
+                if n in hash2key:
+                    real_r[(1, hash2key[n])] = classify(n, raw)
+                elif n in OTHER_NAMES:
+                    real_r[(3, OTHER_NAMES.index(n))] = classify(n, raw)
+            disk_r = []
+            for nm in names_r:
+                disk_r += real_r.get(tuple(nm), [0]) + [-1]
+            retry_rows = [retry["outcome"], disk_r, [x for r in fresh_r["per"] for x in r + [-1]], fresh_r["len"],
+                          fresh_r["iter"]]
+            how = "after the retry"
+            if retry["outcome"] == [7]:
+                flag("retry-does-not-return", "the retried {}() did not return".format(case["op"]))
+            else:
+                judge(after_r, fresh_r, "store opened by the constructor " + how)
+                doc_r = after_r.get(docname)
+                new_r = (not bad) and doc_r is not None and classify(docname, doc_r) == [1, new_tok]
+                if bad:
+                    if retry["outcome"][0] != 1:
+                        flag("retry-accepts-rejected-payload", "the retried {}() of a payload the serialiser rejects "
+                                                               "returned".format(case["op"]))
+                    if doc_r != after.get(docname):
+                        flag("retry-changed-document", "the failing retry changed the document")
+                elif case["op"] == "add" and docname in after:
+                    if retry["outcome"] != [1, 2]:
+                        flag("retry-duplicate-accepted", "the id was stored, the retried add() must raise KeyError but: {}".format(
+                            retry["outcome"]))
+                    if doc_r != after[docname]:
+                        flag("retry-changed-document", "the rejected retry changed the document")
+                else:
+                    if retry["outcome"] != [0]:
+                        flag("retry-fails", "the retried {}() (no fault any more) failed: {}".format(case["op"], retry.get("exc")))
+                    elif not new_r:
+                        flag("retry-not-stored", "the retried {}() returned but the document {} - a write that failed "
+                                                 "must not be remembered as done".format(
+                                                     case["op"], "does not exist" if doc_r is None else "is not the new version"))
+                    elif case["op"] == "add" and retry["source"] == "":
+                        flag("retry-not-marked", "the retried add() returned but the object has no source")
+                if retry["same"]["hang"]:
+                    flag("instance-hangs", "{}: the instance did not answer {}".format(how, retry["same"]["hang"][0]))
+                elif retry["outcome"] != [7] and any(retry["same"][x] != fresh_r[x] for x in ("per", "len", "iter")):
+                    flag("same-instance", "{}: the writing instance answers differently from a fresh one: {} vs {}".format(
+                        how, retry["same"], fresh_r))
         pl = ("Bad {}%nat".format(L.BAD_KINDS[case["kind"]])) if bad else "Good {}%nat".format(new_tok)
         # the fault list the model is run with: as given, or - device-full cases - the exception the SDK's own file
         # layers produced, placed at the effect where it surfaced, with the bytes that had fitted
@@ -662,9 +791,13 @@ def run_sdk(case):
                 F_model = []
             else:
                 F_model = [["n"]] * EFFECTS[case["op"]].index(at) + [["r", 1, case["short"]]]
-        return {"obs": obs, "d0": d0, "pl": pl, "names": names, "fail": fail, "rep": rep, "unknown": unknown,
-                "F_model": F_model, "reopen_diff": reopen_diff}
+        return {"obs": obs + retry_rows, "d0": d0, "pl": pl, "names": names, "fail": fail, "rep": rep, "unknown": unknown,
+                "F_model": F_model, "reopen_diff": reopen_diff, "retried": retry is not None, "retry": retry}
     finally:
+        try:
+            reap(True)          # whatever happened above: the child is gone before the case ends
+        except Exception:
+            pass
         L.rm_scratch(d)
 
 
@@ -690,11 +823,11 @@ def coq_case(case, res):
     d0 = common.coq_list("({}, {})".format(coq_fname(nm), ("Full {}%nat".format(c[1]) if c[0] == 1
                                                            else "Trunc {}%Z".format(c[1])))
                          for nm, c in res["d0"])
-    return ("(mkcase {} {}%nat ({}) {} {} {} {} {} {})".format(
+    return ("(mkcase {} {}%nat ({}) {} {} {} {} {} {} {})".format(
         "KAdd" if case["op"] == "add" else "KCommit", case["key"], res["pl"],
         common.coq_list(coq_fk(f) for f in res.get("F_model", case["F"])), coq_fk(case["fc"]), d0,
         common.coq_list(coq_fname(n) for n in res["names"]),
-        common.coq_list(str(k) + "%nat" for k in range(NKEYS)),
+        common.coq_list(str(k) + "%nat" for k in range(NKEYS)), "true" if res.get("retried") else "false",
         common.coq_z(common.zhash_d(res["obs"], 2))))
 
 
